@@ -5,7 +5,7 @@ import os
 
 ROOT = os.path.dirname(os.path.dirname(os.path.abspath(__file__)))
 
-BOUNDED_NOTE = ("The native sweep (DESIGN 11.14) and layer C are BOUNDED stand-ins (never counted as proved): the sweep executes the step contract on every string of length <= 5 (thorough 6) over a small alphabet for the corpus "
+BOUNDED_NOTE = ("The native sweep (DESIGN 11.14) and layer C are BOUNDED stand-ins (never counted as proved): the sweep executes the step contract on every string of length <= 5 (corpus definitions in the thorough tier: 6) over a small alphabet for the corpus "
                 "and for 150 (thorough 600) seeded random definitions; layer C: the `programs` quantifier is sampled by the corpus in corpus/defs.py, inputs are "
                 "all strings of at most N scalar values (N = 1..5 per definition, every character fully symbolic), calls handling more than m lexemes are "
                 "excluded by assumption, unwinding assertions on. Trusted: Kani 0.68 / CBMC 6.11, the generated reference step function (this project's "
